@@ -16,6 +16,7 @@ import LA.Props.C20
 import LA.Props.C06
 import LA.Proofs.RuleWire
 import LA.Proofs.RulePrint
+import LA.Proofs.RuleExit
 
 namespace LA.Rule
 open LA LA.Flags
@@ -177,6 +178,179 @@ theorem C07_watch_form_exact (r : RuleData) (path perm key : Bytes) (h : asFileW
       by_cases h5 : r.fields.length = 2
       · exact Or.inl h5
       · exact Or.inr (h4 h5)
+
+/-- exit class: every 32-bit exit value is printed (as -ENAME when the negated value is a known
+errno, else as a signed decimal) in a form getExitCode reads back to the same word. -/
+theorem C07_exit_print_parse (v : Nat) (h : v < 4294967296) :
+    ∃ c, getExitCode (exitString v) = some c ∧ toU32 c = v := by
+  unfold exitString
+  simp only
+  generalize hcode : (if v ≥ 2147483648 then (v : Int) - 4294967296 else (v : Int)) = code
+  have hrange : -2147483648 ≤ code ∧ code < 2147483648 := by
+    rw [← hcode]; split <;> omega
+  have hback : toU32 code = v := by
+    rw [← hcode]; unfold toU32; split <;> omega
+  cases hn : (if code ≤ 0 then Tables.errnoName (-code).toNat else none) with
+  | some name =>
+    simp only
+    split at hn
+    · rename_i hle
+      have hnum := LA.C20.C20_errno_num_name_num _ _ hn
+      obtain ⟨c, tl, hname, hc⟩ := errno_names_upper ((-code).toNat, name) (lookupN_mem hn)
+      simp only at hname
+      refine ⟨code, ?_, hback⟩
+      unfold getExitCode
+      rw [hname, parseIntGo_minus_name c tl hc]
+      simp only
+      rw [← hname, hnum]
+      simp only [Option.some.injEq]
+      omega
+    · cases hn
+  | none =>
+    simp only
+    refine ⟨code, ?_, hback⟩
+    unfold getExitCode decInt
+    by_cases hneg : code < 0
+    · rw [if_pos hneg, parseIntGo_dec_neg code.natAbs (by omega)]
+      simp only [Option.some.injEq]
+      omega
+    · rw [if_neg hneg, parseIntGo_dec_pos code.toNat (by omega)]
+      simp only [Option.some.injEq]
+      omega
+
+/-- One statement for every numeric filter: whatever value word Build computed for a filter on
+field `f` (any field except the string-valued ones and arch, which are covered by
+`C07_wire_roundtrip` and `C07_print_total`), the text ToCommandLine prints for that word
+(`fieldRhs f v`) is accepted by the same value parser under the same list and operator and
+yields the same word. Composes the per-class theorems above. -/
+theorem C07_value_reparse (env : Env) (he : EnvOk env) (r : RuleData) (f opc : Nat) (rhs : Bytes) (v : Nat)
+    (a : Option Bytes) (hs : stringFields.contains f = false) (harch : (f == LA.Gen.RuleTables.archField) = false)
+    (h : filterValue env r f opc rhs = some (v, none, a)) :
+    filterValue env r f opc (fieldRhs f v) = some (v, none, none) := by
+  have uid_ne : uidFields.all (fun x => x != LA.Gen.RuleTables.exitField) = true := by decide +kernel
+  have gid_ne : gidFields.all (fun x => x != LA.Gen.RuleTables.exitField && !(uidFields.contains x) &&
+      x != LA.Gen.RuleTables.msgTypeField && x != LA.Gen.RuleTables.permField) = true := by decide +kernel
+  unfold filterValue at h ⊢
+  by_cases c1 : uidFields.contains f = true
+  · rw [if_pos c1] at h ⊢
+    obtain ⟨hw, _⟩ := mapTriple h
+    have hne := List.all_eq_true.mp uid_ne f (by simpa using c1)
+    have hne' : (f == LA.Gen.RuleTables.exitField) = false := by simpa using hne
+    simp only [fieldRhs, hne', Bool.false_eq_true, if_false, c1, if_true]
+    rw [C07_uid_print_parse env v (getUID_lt he hw)]; rfl
+  rw [if_neg c1] at h ⊢
+  by_cases c2 : gidFields.contains f = true
+  · rw [if_pos c2] at h ⊢
+    obtain ⟨hw, _⟩ := mapTriple h
+    have hne := List.all_eq_true.mp gid_ne f (by simpa using c2)
+    simp only [Bool.and_eq_true, bne_iff_ne, ne_eq, Bool.not_eq_true'] at hne
+    obtain ⟨⟨⟨n1, n2⟩, n3⟩, n4⟩ := hne
+    have e1 : (f == LA.Gen.RuleTables.exitField) = false := by simpa using n1
+    have e3 : (f == LA.Gen.RuleTables.msgTypeField) = false := by simpa using n3
+    have e4 : (f == LA.Gen.RuleTables.permField) = false := by simpa using n4
+    simp only [fieldRhs, e1, n2, e3, e4, Bool.false_eq_true, if_false]
+    rw [C07_gid_print_parse env v (getGID_lt he hw)]; rfl
+  rw [if_neg c2] at h ⊢
+  by_cases c3 : (f == LA.Gen.RuleTables.exitField) = true
+  · rw [if_pos c3] at h ⊢
+    split at h
+    · simp at h
+    · rename_i hfl
+      rw [if_neg hfl]
+      cases hg : getExitCode rhs with
+      | none => rw [hg] at h; simp at h
+      | some w =>
+        rw [hg] at h
+        simp only [Option.map_some, Option.some.injEq, Prod.mk.injEq] at h
+        obtain ⟨hv, _⟩ := h
+        obtain ⟨c, hc1, hc2⟩ := C07_exit_print_parse v (by rw [← hv]; exact toU32_lt w)
+        simp only [fieldRhs, c3, if_true, hc1, Option.map_some, hc2]
+  rw [if_neg c3] at h ⊢
+  have e1 : (f == LA.Gen.RuleTables.exitField) = false := by simpa using c3
+  have e2 : uidFields.contains f = false := by simpa using c1
+  by_cases c4 : (f == LA.Gen.RuleTables.msgTypeField) = true
+  · rw [if_pos c4] at h ⊢
+    split at h
+    · simp at h
+    · rename_i hfl
+      rw [if_neg hfl]
+      obtain ⟨hw, _⟩ := mapTriple h
+      have hlt := getAuditMsgType_lt hw
+      simp only [fieldRhs, e1, e2, c4, Bool.false_eq_true, if_false, if_true]
+      by_cases hv : v ≤ 65535
+      · rw [if_pos hv, C07_msgtype_name v (by omega)]; rfl
+      · rw [if_neg hv, C07_msgtype_number v hlt]; rfl
+  rw [if_neg c4] at h ⊢
+  have e3 : (f == LA.Gen.RuleTables.msgTypeField) = false := by simpa using c4
+  simp only [hs, Bool.false_eq_true, if_false, harch] at h ⊢
+  by_cases c7 : (f == LA.Gen.RuleTables.permField) = true
+  · rw [if_pos c7] at h ⊢
+    split at h
+    · simp at h
+    · rename_i hfl
+      rw [if_neg hfl]
+      split at h
+      · simp at h
+      · rename_i hop
+        rw [if_neg hop]
+        obtain ⟨hw, _⟩ := mapTriple h
+        simp only [fieldRhs, e1, e2, e3, c7, Bool.false_eq_true, if_false, if_true]
+        rw [C07_perm_print_parse v (getPerm_lt16 hw)]; rfl
+  rw [if_neg c7] at h ⊢
+  have e4 : (f == LA.Gen.RuleTables.permField) = false := by simpa using c7
+  have hrhs : fieldRhs f v = dec v := by
+    simp only [fieldRhs, e1, e2, e3, e4, Bool.false_eq_true, if_false]
+  rw [hrhs]
+  by_cases c8 : (f == LA.Gen.RuleTables.filetypeField) = true
+  · rw [if_pos c8] at h ⊢
+    split at h
+    · simp at h
+    · rename_i hfl
+      rw [if_neg hfl]
+      obtain ⟨hw, _⟩ := mapTriple h
+      obtain ⟨p, hp1, hp2⟩ := getFiletype_mem hw
+      rw [← hp2, (C07_filetype_print_parse p hp1).1]; rfl
+  rw [if_neg c8] at h ⊢
+  by_cases c9 : (f == LA.Gen.RuleTables.inodeField) = true
+  · rw [if_pos c9] at h ⊢
+    split at h
+    · simp at h
+    · rename_i hfl
+      rw [if_neg hfl]
+      split at h
+      · simp at h
+      · rename_i hop
+        rw [if_neg hop]
+        obtain ⟨hw, _⟩ := mapTriple h
+        rw [C07_num_print_parse v (parseNum_lt hw)]; rfl
+  rw [if_neg c9] at h ⊢
+  by_cases c10 : (f == LA.Gen.RuleTables.saddrFamField) = true
+  · rw [if_pos c10] at h ⊢
+    cases hp : parseNum rhs with
+    | none => rw [hp] at h; simp at h
+    | some n =>
+      rw [hp] at h
+      simp only [Option.bind_some] at h
+      split at h
+      · rename_i hn
+        simp only [Option.some.injEq, Prod.mk.injEq] at h
+        obtain ⟨rfl, _⟩ := h
+        rw [C07_num_print_parse n (parseNum_lt hp)]
+        simp only [Option.bind_some, hn, if_true]
+      · simp at h
+  rw [if_neg c10] at h ⊢
+  by_cases c11 : [LA.Gen.RuleTables.devMajorField, LA.Gen.RuleTables.devMinorField, LA.Gen.RuleTables.successField,
+      LA.Gen.RuleTables.ppidField].contains f = true
+  · rw [if_pos c11] at h ⊢
+    split at h
+    · simp at h
+    · rename_i hfl
+      rw [if_neg hfl]
+      obtain ⟨hw, _⟩ := mapTriple h
+      rw [C07_num_print_parse v (parseNum_lt hw)]; rfl
+  rw [if_neg c11] at h ⊢
+  obtain ⟨hw, _⟩ := mapTriple h
+  rw [C07_num_print_parse v (parseNum_lt hw)]; rfl
 
 /-- Wire round trip: the library's own decoder (fromWireFormat + fromAuditRuleData, the first half
 of ToCommandLine) inverts its encoder on everything rule.Build produces — list, action, every
